@@ -426,6 +426,11 @@ def _force_learning(case):
         start = int(cfg.get("global_step", 0))
         # learning must start well before the budget ends
         cfg["learning_starts"] = min(int(cfg.get("learning_starts", 0)), start + max(2, (T - start) // 3))
+    if name == "pets":
+        # the ensemble trains on int(0.7 * len(buffer)) bootstrapped rows in batches of model_batch_size: with a
+        # capacity of 3-5 and the default batch of 4 no batch is ever formed and the run learns nothing
+        cfg["model_batch_size"] = 2
+        cfg["buffer_size"] = max(int(cfg.get("buffer_size", 4)), 4)
     if name in ("dqn", "nature_dqn", "ddqn", "ddqn_per"):
         cfg["batch_size"] = min(int(cfg.get("batch_size", 2)), 3)
         cfg["update_frequency"] = min(int(cfg.get("update_frequency", 1)), 2)
